@@ -73,6 +73,27 @@ def long_c_call():
 def writer():
     while True:
         sys.stdout.write('')
+def swallow_once():
+    # swallows the interruption once, keeps going for a moment (while a later execution may be running) and then ends normally
+    try:
+        while True:
+            pass
+    except BaseException:
+        pass
+    n = 0
+    while n < 3000000:
+        n += 1
+    return 1
+def swallow_once_raise():
+    try:
+        while True:
+            pass
+    except BaseException:
+        pass
+    n = 0
+    while n < 3000000:
+        n += 1
+    raise ValueError('late failure of the abandoned thread')
 def import_spin():
     import looper
 def import_spin_print():
@@ -86,7 +107,7 @@ def ask():
 # the student's second files, imported by import_spin / import_spin_print (threaded imports run in a nested timeout thread)
 EXTRA_FILES = {'looper.py': 'while True:\n    pass\n',
                'looper_print.py': "n = 0\nwhile True:\n    n += 1\n    if n % 500 == 0:\n        print('tick from module')\n"}
-KINDS = ['spin', 'spin_print', 'swallow_exception', 'swallow_base', 'swallow_base_print', 'block_on_lock', 'writer', 'import_spin', 'import_spin_print']
+KINDS = ['spin', 'spin_print', 'swallow_exception', 'swallow_base', 'swallow_base_print', 'block_on_lock', 'writer', 'import_spin', 'import_spin_print', 'swallow_once', 'swallow_once_raise']
 
 
 def submission():
